@@ -210,7 +210,7 @@ mod verif_c09 {
         std::mem::forget(ps);
     }
 
-    // @harness id=C09 tier=thorough timeout=3400 mem=12
+    // @harness id=C09 tier=deep timeout=3400 mem=12
     // @bounds duration() with a frozen clock: zero when finished / length unknown, otherwise elapsed + eta (saturating); elapsed is the frozen instant minus creation
     #[kani::proof]
     #[kani::unwind(8)]
